@@ -965,6 +965,49 @@ func c10(r *core.Run) {
 				o.Fail(p.InstrPos(c), "the index records slot %s for the entry, but the entry is not pushed onto slots[%s] here", core.Describe(posArg), core.Describe(posArg))
 			}
 		}
+		// converse: every push of an entry onto slots[pos] is accompanied (on every path to the end of the
+		// function or the next push) by the index update for the same (pos, entry); otherwise the index keeps the
+		// old slot and a later move/re-set of the key is scheduled relative to a slot the entry has left
+		isSet := func(in ssa.Instruction) bool {
+			c, ok := in.(*ssa.Call)
+			return ok && c.Call.StaticCallee() == si
+		}
+		for _, f := range t.g.funcs {
+			for _, pc := range core.Calls(f, isPush) {
+				args := core.Args(pc)
+				ld, isLd := args[0].(*ssa.UnOp)
+				if !isLd {
+					continue
+				}
+				ia, isIA := ld.X.(*ssa.IndexAddr)
+				if !isIA || !core.IsFieldLoad(ia.X, "TimingWheel.slots") {
+					continue
+				}
+				o.Site(1, core.FuncName(f))
+				pi := pc.(ssa.Instruction)
+				ent := core.Forward(core.Strip(args[1]))
+				paired := func(in ssa.Instruction) bool {
+					c, ok := in.(*ssa.Call)
+					if !ok || !isSet(in) {
+						return false
+					}
+					return core.Forward(c.Call.Args[1]) == core.Forward(ia.Index) && core.Forward(core.Strip(c.Call.Args[2])) == ent
+				}
+				// already indexed just before the push (dominating call), or on every path after it
+				before := false
+				for _, sc := range core.Instrs(f, paired) {
+					if core.Dominates(sc, pi) {
+						before = true
+					}
+				}
+				if before {
+					continue
+				}
+				if w, ok := core.Reach(core.Q{From: []core.At{core.After(pi)}, Target: core.Or(core.IsReturn, core.Is(pi)), Blocked: paired}); ok {
+					o.Fail(p.InstrPos(pi), "%s pushes an entry onto slots[%s] without recording that slot in the timers index on a path to %s: the index keeps the old slot", core.FuncName(f), core.Describe(ia.Index), p.InstrPos(w))
+				}
+			}
+		}
 		// fresh placement: pos = result 0, circle = result 1
 		isPlace := func(in ssa.Instruction) bool {
 			c, ok := in.(*ssa.Call)
